@@ -170,6 +170,38 @@ mod verif_replay {
         std::panic::set_hook(Box::new(|_| {}));
         let alphabet: [u8; 6] = [b'a', 0xe2, 0x82, 0xac, 0xff, 0xf0];
         let mut fails = 0;
+        // every sequence-length class at its boundaries (first and last code point of each length, the last code point
+        // of all, surrogates, overlong and too-large encodings, truncated sequences), alone and between two letters
+        let mut specials: Vec<Vec<u8>> = vec![];
+        for cp in [0x00u32, 0x7f, 0x80, 0x7ff, 0x800, 0xd7ff, 0xe000, 0xffff, 0x10000, 0x3ffff, 0x40000, 0xfffff, 0x100000, 0x10ffff] {
+            let s = char::from_u32(cp).unwrap().to_string().into_bytes();
+            specials.push(s.clone());
+            let mut t = vec![b'x']; t.extend_from_slice(&s); t.push(b'y'); specials.push(t);
+            let mut u = s.clone(); u.extend_from_slice(&s); specials.push(u);
+            for cut in 1..s.len() { let mut w = s[..cut].to_vec(); w.push(b'z'); specials.push(w); specials.push(s[..cut].to_vec()); }
+        }
+        for bad in [&[0xf4u8, 0x90, 0x80, 0x80][..], &[0xf5, 0x80, 0x80, 0x80], &[0xf8, 0x88, 0x80, 0x80], &[0xc0, 0x80], &[0xc1, 0xbf], &[0xed, 0xa0, 0x80], &[0xed, 0xbf, 0xbf],
+                    &[0xe0, 0x80, 0x80], &[0xf0, 0x80, 0x80, 0x80], &[0xf4, 0x8f, 0xbf], &[0xf4, 0x8f], &[0xf4], &[0x80], &[0xbf, 0x61]] {
+            specials.push(bad.to_vec());
+            let mut t = vec![b'x']; t.extend_from_slice(bad); t.push(b'y'); specials.push(t);
+        }
+        for v in &specials {
+            let len = v.len();
+            let expect = reference(v);
+            for mask in 0..(1usize << (len.max(1) - 1)) {
+                let cuts: Vec<usize> = (1..len).filter(|i| mask & (1 << (i - 1)) != 0).collect();
+                for &pb in &[false, true] {
+                    let got = run(v, &cuts, pb);
+                    let ok = match &got { Ok(g) => *g == expect, Err(_) => false };
+                    if !ok && fails < 12 {
+                        fails += 1;
+                        println!("REPLAY-FAIL bytes {:?} split at {:?} putback={}: got {} expected {:?}", v, cuts, pb,
+                                 match &got { Ok(g) => format!("{:?}", g), Err(_) => "PANIC".to_string() }, expect);
+                    }
+                }
+            }
+        }
+        if fails >= 12 { return; }
         for len in 1..=6usize {
             let total = 6usize.pow(len as u32);
             for code in 0..total {
